@@ -134,11 +134,16 @@ def h_capture(sx):
         steps = w.step_objs(e)
         executed = [src for (sid, src) in [tuple(c) for c in w.calls] if sid == e.eid]
         for i, st in enumerate(steps):
-            if st.status.name in ("failed", "error") and st.error_message and st.name.split()[1] in executed:
+            if st.status.name in ("failed", "error", "hook_error"):
                 src = st.name.split()[1]
-                last = max(i_ for i_, x in enumerate(executed) if x == src or x.startswith(src + "."))
-                upto = executed[:last + 1]      # incl. nested sub-steps / output after them within the same step
-                marks = MARK.findall(st.error_message)
+                if src in executed:
+                    last = max(i_ for i_, x in enumerate(executed) if x == src or x.startswith(src + "."))
+                    upto = executed[:last + 1]      # incl. nested sub-steps / output after them within the same step
+                elif st.status.name == "hook_error":
+                    upto = list(executed)           # before_step hook raised: the body did not run, earlier steps did
+                else:
+                    continue
+                marks = MARK.findall(st.error_message or "")
                 for kind, on in (("OUT", so), ("ERR", se), ("LOG", lo)):
                     got = [(a, b) for k, a, b in marks if k == kind]
                     exp = [(e.eid, s) for s in upto] if on else []
